@@ -836,8 +836,37 @@ impl<const M: usize> World<M> {
         if o == Outcome::Err {
             // original block untouched and still owned (generic_post verified its bytes)
             self.check_unchanged(what, &pre, &post, pl);
+            self.failed_realloc_keeps_block(what, &pre, &post, blk);
         }
         self.finish(&post, &o);
+    }
+
+    /// C12: "on error the original block is untouched and still owned by the caller": the arena must not
+    /// have given the block's space back, and a following allocation must not be placed on it.
+    fn failed_realloc_keeps_block(&mut self, what: &'static str, pre: &Pub, post: &Pub, blk: Blk) {
+        if !self.judge {
+            return;
+        }
+        if post.cap != pre.cap || post.nchunks != pre.nchunks || post.chunks[0] != pre.chunks[0] {
+            self.v(12, "error_released_or_moved_block", format!("error_released_or_moved_block/{what}"), format!("{what} returned Err but the arena's free space changed (chunk_capacity {} -> {}): the caller still owns the original block", pre.cap, post.cap));
+        }
+        if blk.size == 0 {
+            return;
+        }
+        let envp = self.env;
+        let b = self.bump.take().unwrap();
+        let n = blk.size.min(64).max(1);
+        let r = arena_op(envp, self.step, self.arena, &[Answer::Refuse], || b.try_alloc_layout(Layout::from_size_align(n, 1).unwrap()).map(|p| p.as_ptr() as usize).ok());
+        self.bump = Some(b);
+        if let Ok(Some(a)) = r {
+            if a < blk.addr + blk.size && blk.addr < a + n {
+                self.v(12, "block_handed_out_again_after_error", format!("block_handed_out_again_after_error/{what}"), format!("{what} returned Err; the next request of {n} bytes was placed at rel {} on top of the block the caller still owns (rel {}, {} bytes)", self.rel(a), self.rel(blk.addr), blk.size));
+                self.terminal = true;
+            } else {
+                self.accept_block("allocation_after_failed_realloc", a, n, 1, true, None);
+                self.terminal = true;
+            }
+        }
     }
 
     pub fn do_shrink(&mut self, h: u8, new_size: usize, al: u8, script: &[Answer]) {
@@ -913,6 +942,7 @@ impl<const M: usize> World<M> {
         let post = self.generic_post(what, &pre, pl, false);
         if o == Outcome::Err {
             self.check_unchanged(what, &pre, &post, pl);
+            self.failed_realloc_keeps_block(what, &pre, &post, blk);
         }
         self.finish(&post, &o);
     }
